@@ -153,20 +153,13 @@ theorem design_space_composition (s : Sys) :
     s.mdfDS.names = s.ds.names.filter (fun n => !s.allCouplings.contains n && s.allInputs.contains n) ∧
     (∀ d, s.idfDS = some d → d = s.ds ∧ ∀ c ∈ s.allCouplings, s.ds.contains c = true) ∧
     (s.idfDS = none → ∃ c ∈ s.allCouplings, s.ds.contains c = false) ∧
-    (∀ ins : List String,
-      ins = (match s.discs with | [d] => d.ins.map (fun (p : String × Nat) => p.1) | ds => chainInputs ds []) →
-      s.doptDS.names = s.ds.names.filter (fun n => ins.contains n)) := by
+    s.doptDS.names = s.ds.names.filter (fun n => s.topInputs.contains n) := by
   refine ⟨mdfDS_names s, fun d h => idfDS_some s d h, idfDS_none s, ?_⟩
-  intro ins hins
   unfold Sys.doptDS
-  simp only
-  rw [← hins, names_filter]
-  · rw [List.filter_filter]
-    apply List.filter_congr
+  rw [names_filter]
+  · apply List.filter_congr
     intro n hn
-    have : (s.ds.names.filter (fun n => ins.contains n)).contains n = ins.contains n :=
-      contains_filter_of_mem hn
-    rw [this]; simp
+    exact contains_filter_of_mem hn
   · intro k hk
     have hk' : k ∈ s.ds.names := (List.mem_filter.mp hk).1
     simp only [DS.names, List.mem_map] at hk'
